@@ -226,7 +226,11 @@ func usableInstances(tier string) []Instance {
 					if n == 2 && !thorough(tier) && (f != "none" || c.k == 2) {
 						continue
 					}
-					add(usableParams{n: n, calls: []wlCall{c}, fault: f, timers: tm}, b1)
+					b := b1
+					if n == 1 && !tm {
+						b = 2
+					}
+					add(usableParams{n: n, calls: []wlCall{c}, fault: f, timers: tm}, b)
 				}
 			}
 		}
